@@ -463,10 +463,13 @@ Proof.
     assert (exists n, as_int v = Some n) by (inversion Hi; subst; simpl; eauto).
     destruct H0 as [n ->]. eexists; split; [reflexivity|].
     intros w Hin. apply in_map_iff in Hin. destruct Hin as [z [<- _]]. constructor.
-  - destruct te as [| | | | | |ts]; try discriminate. destruct ts as [|t0 ts]; [discriminate|].
-    assert (Hit : it = mk_union P (t0 :: ts)) by (destruct (mk_union P (t0 :: ts)); inversion H; reflexivity).
-    inversion Hv as [ | | | | | |vs0 ts0 Hms| ]; subst. eexists; split; [reflexivity|].
-    intros w Hin. destruct (mems_in _ _ _ Hms Hin) as [t [A B]]. eapply mk_union_sound; eauto.
+  - destruct te as [| |  | | | |ts]; try discriminate.
+    + (* str: one-character strings *)
+      inversion H; subst. inversion Hv; subst. eexists; split; [reflexivity|].
+      intros w Hin. apply in_map_iff in Hin. destruct Hin as [ch [<- _]]. constructor.
+    + destruct ts as [|t0 ts]; [discriminate|]. inversion H; subst.
+      inversion Hv as [ | | | | | |vs0 ts0 Hms| ]; subst. eexists; split; [reflexivity|].
+      intros w Hin. destruct (mems_in _ _ _ Hms Hin) as [t [A B]]. eapply mk_union_sound; eauto.
 Qed.
 
 Lemma for_sound : forall f x b els ret fr d' V' it d1 V1 r1 J1 ste Je st' Jout,
